@@ -264,7 +264,8 @@ def run_variant(spec: dict[str, Any], asg: dict[str, list[list[Any]]] | None, st
     except Exception:  # noqa: BLE001  (unsupported kernel forms)
         pass
     return {"status": "ok", "outputs": rr.outputs, "structure": structure(bp), "bp": bp,
-            "cp": cp, "env": b.env(vset), "rbw": rbw, "interp_outputs": iout, "interp_oob": ioob,
+            "cp": cp, "env": b.env(vset), "rbw": rbw,
+            "dep_repairs": list(getattr(cp, "dep_repairs", []) or []), "interp_outputs": iout, "interp_oob": ioob,
             "applied": applied, "decl": {k: (tuple(int(s) for s in v.shape), str(v.dtype))
                                           for k, v in outs.items()},
             "canary": rr.canary_violations}
@@ -283,6 +284,11 @@ def compare_variant(spec: dict[str, Any], base: dict[str, Any], var: dict[str, A
         out.append(("C07:declared-shape-dtype", "declared shapes/dtypes changed", {}))
     if var["canary"]:
         out.append(("C07:out-of-bounds-write", f"buffers {var['canary']}", {}))
+    if var.get("dep_repairs") and not base.get("dep_repairs"):
+        out.append(("C07:dependency-omitted:repaired-by-loopy-heuristic",
+                    "under this tag assignment the kernel lacks a writer->reader dependency "
+                    f"(loopy's single-writer heuristic added it): {var['dep_repairs'][0][:160]}",
+                    {}))
     if var.get("rbw") and not base.get("rbw"):
         out.append(("C07:read-before-write", "under this tag assignment an instruction reads "
                     "an element no instruction it depends on has written",
